@@ -280,6 +280,17 @@ func (tb *TB) RootTerms(t *Term, depth int) []*Term {
 			}
 			rec(inner, d+1)
 		case "call":
+			if (x.Sym == "builtin.StringData" || x.Sym == "builtin.SliceData" || x.Sym == "builtin.Slice" || x.Sym == "builtin.String") && len(x.Args) > 0 {
+				// unsafe views: the memory of the viewed string/slice itself (a string is no pure value once its
+				// bytes are reachable for writing)
+				a := x.Args[0]
+				if a.Op == "param" || a.Op == "gval" || a.Op == "global" {
+					add(a)
+				} else {
+					rec(a, d+1)
+				}
+				return
+			}
 			if x.Sym == "builtin.append" && len(x.Args) > 0 {
 				rec(x.Args[0], d+1) // result may alias the first operand's spare capacity
 				add(mk("fresh", "append"))
